@@ -45,7 +45,11 @@ def cases():
                         continue
                     p = fr.data.tpci
                     numbered = bool(getattr(p, "numbered", False))
-                    out.append({"t": "dec", "o": o, "kind": kind, "res": type(p).__name__, "seq": p.sequence_number if numbered else 0, "enc": p.to_knx(), "via": "frame"})
+                    try:                                  # the octet as the frame writes it again (the only place where it reaches the wire)
+                        enc = fr.to_knx()[9]
+                    except Exception:  # noqa: BLE001 - the frame layer refuses to re-serialise (C13): the PDU's own encoding
+                        enc = p.to_knx()
+                    out.append({"t": "dec", "o": o, "kind": kind, "res": type(p).__name__, "seq": p.sequence_number if numbered else 0, "enc": enc, "via": "frame"})
     pdus = [(T.TDataGroup, None, ["group"]), (T.TDataBroadcast, None, ["broadcast"]),
             (T.TDataTagGroup, None, ["group", "broadcast"]), (T.TDataIndividual, None, ["individual"]),
             (T.TConnect, None, ["individual"]), (T.TDisconnect, None, ["individual"])]
